@@ -180,7 +180,12 @@ func isIdentChar(b byte) bool {
 // ---------------------------------------------------------------- helpers per type
 
 func mk(id spec.TypeID) string { return fmt.Sprintf("mk_%d", int(id)) }
-func vh(id spec.TypeID) string { return fmt.Sprintf("vh_%d", int(id)) }
+func vh(id spec.TypeID) string {
+	if id == spec.CtxType {
+		return "vrt.CtxHash"
+	}
+	return fmt.Sprintf("vh_%d", int(id))
+}
 
 func basicMk(b, expr string) string {
 	switch b {
@@ -498,6 +503,9 @@ func vhCall(c *spec.Case, t spec.TypeID, from, arg string) string {
 }
 
 func mkCall(c *spec.Case, t spec.TypeID, from, arg string) string {
+	if t == spec.CtxType {
+		return "vrt.MkCtx(" + arg + ")"
+	}
 	if from == "" {
 		return mk(t) + "(" + arg + ")"
 	}
